@@ -157,7 +157,9 @@ Print Assumptions C12_slice_meaning.
    removed) the replaced rule is the constructor applied to the original arguments with the named ones
    changed.  replace_guard excludes exactly the open finding F-C12-replace-nth (weekday occurrence number
    on a rule with freq > MONTHLY, new freq <= MONTHLY, byweekday not named: refuted below) and the bysetpos=()
-   corner, which is no finding and is proved below (C12_replace_setpos_empty). *)
+   corner, which is no finding and is proved below (C12_replace_setpos_empty).  Its third conjunct says that the
+   ORIGINAL rule exists: since fix 55654b4 the constructor rejects a bymonthday containing 0, and every argument
+   record the constructor accepts satisfies it (C12_constructible_no_zero), so it excludes no replace() call. *)
 Theorem C12_replace_only_named : forall r u,
   RReplaceThm.replace_guard r u -> RReplace.replace r u = RReplace.replace_spec r u.
 Proof. exact RReplaceThm.replace_only_named. Qed.
@@ -171,6 +173,7 @@ Print Assumptions C12_replace_only_named.
 Theorem C12_replace_setpos_empty : forall r u,
   RRNorm.r_bysetpos r = Some [] -> RReplace.u_bysetpos u = None ->
   (RReplace.u_byweekday u <> None \/ RReplaceThm.wd_guard r (RReplace.ov (RReplace.u_freq u) (RRNorm.r_freq r))) ->
+  (RReplace.u_bymonthday u <> None \/ RReplaceThm.v_zero (RRNorm.r_bymonthday r) = false) ->
   RReplace.replace r u = RReplace.replace_spec (RReplaceThm.clear_setpos r) u /\
   RReplace.apply_upd (RReplaceThm.clear_setpos r) u = RReplaceThm.clear_setpos (RReplace.apply_upd r u).
 Proof. exact RReplaceThm.replace_setpos_corner. Qed.
@@ -184,6 +187,11 @@ Theorem C12_normalize_setpos_empty : forall x, RRNorm.r_bysetpos x = Some [] ->
   end.
 Proof. exact RReplaceThm.normalize_setpos_empty. Qed.
 Print Assumptions C12_normalize_setpos_empty.
+
+Theorem C12_constructible_no_zero : forall r ru,
+  RRNorm.normalize r = RRBase.Ok ru -> RReplaceThm.v_zero (RRNorm.r_bymonthday r) = false.
+Proof. exact RReplaceThm.constructible_no_zero. Qed.
+Print Assumptions C12_constructible_no_zero.
 
 Theorem C12_replace_nth_refuted :
   RReplace.replace (RReplaceThm.mk_raw0 RRBase.WEEKLY None (Some [(0, 1)])) (RReplaceThm.upd_freq RRBase.MONTHLY) <>
